@@ -11,6 +11,13 @@ thread_local! {
 pub fn install() {
     let verbose = std::env::var_os("VERIF_VERBOSE").is_some();
     std::panic::set_hook(Box::new(move |info| {
+        if info
+            .payload()
+            .downcast_ref::<crate::wire::reader::Starved>()
+            .is_some()
+        {
+            return;
+        }
         if let Some(b) = info
             .payload()
             .downcast_ref::<crate::wire::reader::BudgetExceeded>()
